@@ -58,6 +58,8 @@ func checkC01(p *Prog, r *Report) {
 	checkTeardownWindow(r, rTear, a, m)
 	checkDoShutdown(p, r, r.Rule("shutdown-flag", "the shutdown flag is set (under the lock) by the very goroutine which then waits for attached streams, before it waits"), a)
 	checkRefusedNoIO(p, r, rIO, a)
+	checkNoticesDelivered(p, r, r.Rule("notices-delivered", "a notice for the operator is handed to the operator channel on every way through the notice functions: no timeout, default arm or cancellation lets one be dropped (a refusal the operator is never told about)"), a)
+	checkStateWriters(p, r, r.Rule("state-writers", "the broker's admission state (key and the two cancel slots) is written only by the admission function's own frame, whose paths the decision table covers: not by a goroutine, a timer callback or another function"), a)
 	checkDetachedSilent(p, r, r.Rule("detached-stream-silent", "what is shown to the operator is handed over by the proxies themselves, which end before their stream is detached: no goroutine a proxy starts sends on the operator channel (it could do so after the detachment, beside a new shell's output)"), a)
 	checkHandlerWiring(p, r, rWire)
 }
@@ -966,5 +968,172 @@ func checkDetachedSilent(p *Prog, r *Report, ru *Rule, a *connectAnchors) {
 		ru.Unproven("proxies", token.NoPos, "the proxy closures handed to the admission function were not found")
 	} else if 0 == n {
 		ru.OK("proxies", roots[0].Pos(), "the proxies start no goroutines")
+	}
+}
+
+// checkStateWriters: every store to the key or to a cancel slot — through the
+// field, or through one of the slot pointers the admission function is given
+// — sits in the admission function itself (or in the constructor, on the
+// broker it is making).
+func checkStateWriters(p *Prog, r *Report, ru *Rule, a *connectAnchors) {
+	slotParam := map[ssa.Value]bool{}
+	for _, pa := range a.Fn.Params {
+		if pt, ok := pa.Type().Underlying().(*types.Pointer); ok {
+			if sg, ok := pt.Elem().Underlying().(*types.Signature); ok && 0 == sg.Params().Len() && 0 == sg.Results().Len() {
+				slotParam[pa] = true
+			}
+		}
+	}
+	n := 0
+	for _, fn := range p.Funcs() {
+		if nil == fn.Pkg || fn.Pkg != a.Fn.Pkg || fn == a.Fn {
+			continue
+		}
+		/* A literal of the admission function which it only calls or
+		defers itself runs in its frame (the table runs deferred calls). */
+		if fn.Parent() == a.Fn {
+			sync := true
+			uses := 0
+			eachInstr(a.Fn, func(i ssa.Instruction) {
+				mc, ok := i.(*ssa.MakeClosure)
+				if !ok || mc.Fn != ssa.Value(fn) {
+					return
+				}
+				for _, ref := range *mc.Referrers() {
+					switch x := ref.(type) {
+					case *ssa.DebugRef:
+					case *ssa.Call:
+						uses++
+						if x.Common().Value != ssa.Value(mc) {
+							sync = false
+						}
+					case *ssa.Defer:
+						uses++
+						if x.Common().Value != ssa.Value(mc) {
+							sync = false
+						}
+					default:
+						sync = false
+					}
+				}
+			})
+			if sync && uses > 0 {
+				continue
+			}
+		}
+		eachInstr(fn, func(i ssa.Instruction) {
+			st, ok := i.(*ssa.Store)
+			if !ok {
+				return
+			}
+			what := ""
+			if fv, base := fieldAddrOf(st.Addr); nil != fv && (fv == a.FKey || fv == a.FIn || fv == a.FOut) {
+				if _, fresh := resolveFree(base).(*ssa.Alloc); fresh {
+					return /* the constructor filling in a new broker */
+				}
+				what = "Broker." + fv.Name()
+			}
+			if "" == what {
+				addr := resolveFree(stripConv(st.Addr, false))
+				if slotParam[addr] {
+					what = "the slot *" + addr.Name()
+				}
+				/* An element of the slot array, an index away. */
+				if ia, isIA := st.Addr.(*ssa.IndexAddr); isIA {
+					if fv, base := fieldAddrOf(ia.X); nil != fv && (fv == a.FIn || fv == a.FOut) {
+						if _, fresh := resolveFree(base).(*ssa.Alloc); !fresh {
+							what = "Broker." + fv.Name() + "[…]"
+						}
+					}
+				}
+			}
+			if "" == what {
+				return
+			}
+			n++
+			ru.Bad(fmt.Sprintf("%s:%s", fnName(fn), what), posOf(st), "%s is written in %s, outside the admission function's own frame (a goroutine, a timer callback, a helper run later): the admission and tear-down tables do not cover that write — a slot cleared or a key changed behind their back admits streams which must be refused", what, fnName(fn))
+		})
+	}
+	if 0 == n {
+		ru.OK(fnName(a.Fn)+":only-writer", a.Fn.Pos(), "key and cancel slots are written in the admission function's own frame only")
+	}
+}
+
+// checkNoticesDelivered: Errorf and Logf of the broker (and what they call)
+// cannot return without the line having been sent on the operator channel.
+func checkNoticesDelivered(p *Prog, r *Report, ru *Rule, a *connectAnchors) {
+	memo := map[*ssa.Function]int{} /* 1 = delivers on every path, 2 = may not */
+	var delivers func(f *ssa.Function, depth int) bool
+	delivers = func(f *ssa.Function, depth int) bool {
+		if nil == f || nil == f.Blocks || depth > 4 {
+			return false
+		}
+		if v, ok := memo[f]; ok {
+			return 1 == v
+		}
+		memo[f] = 2
+		onOch := func(ch ssa.Value) bool {
+			fv, _ := fieldBehind(ch)
+			return nil != fv && fv == a.FOch
+		}
+		/* Edges taken when a select's send on the channel was chosen. */
+		sent := map[Edge]bool{}
+		eachInstr(f, func(i ssa.Instruction) {
+			sel, ok := i.(*ssa.Select)
+			if !ok {
+				return
+			}
+			for k, st := range sel.States {
+				if types.SendOnly != st.Dir || !onOch(st.Chan) {
+					continue
+				}
+				for _, b := range f.Blocks {
+					ifi := blockIf(b)
+					if nil == ifi {
+						continue
+					}
+					dc := decodeCond(ifi.Cond)
+					ex, isEx := dc.X.(*ssa.Extract)
+					if !isEx || ex.Tuple != ssa.Value(sel) || 0 != ex.Index || nil == dc.Y {
+						continue
+					}
+					if idx, isC := constInt(dc.Y); isC && int(idx) == k {
+						succ := 1
+						if dc.Eq {
+							succ = 0
+						}
+						sent[Edge{b.Index, b.Succs[succ].Index}] = true
+					}
+				}
+			}
+		})
+		miss := reachQ{From: entryLoc(f), NoEdges: sent, Target: isReturn, Block: func(i ssa.Instruction) bool {
+			if sd, ok := i.(*ssa.Send); ok && onOch(sd.Chan) {
+				return true
+			}
+			if c, ok := i.(*ssa.Call); ok {
+				if g := c.Common().StaticCallee(); nil != g && inModule(g) && g != f && delivers(g, depth+1) {
+					return true
+				}
+			}
+			return false
+		}}.run()
+		if nil == miss {
+			memo[f] = 1
+			return true
+		}
+		return false
+	}
+	for _, name := range []string{"Errorf", "Logf"} {
+		f := p.Func(iobPkg, "Broker", name)
+		if nil == f {
+			ru.Unproven("Broker."+name, token.NoPos, "not found")
+			continue
+		}
+		if delivers(f, 0) {
+			ru.OK(fnName(f), f.Pos(), "returns only after the line has been sent on the operator channel")
+		} else {
+			ru.Bad(fnName(f), f.Pos(), "%s can return without having sent its line on the operator channel (a timeout, a default arm or a cancellation arm beside the send): with a busy terminal a refusal or a closure notice is silently dropped", name)
+		}
 	}
 }
